@@ -85,7 +85,9 @@ def run(ctx, pid):
                 "servers come and go, then read / check / repair) over the listed constants.  TRACE: seeded scenarios "
                 "of family %s executed on real storage servers, real publisher, ServermapUpdater, Retrieve, "
                 "MutableChecker and Repairer; every servermap update and every operation result is an event judged by "
-                "TLC against the ground-truth layout the harness built.  Non-trivial: %s." % (pid, NONTRIVIAL[pid]))
+                "TLC against the ground-truth layout the harness built%s.  Non-trivial: %s."
+                % (pid, "; every 8th scenario: a 9-12 kB file (blocks fetched after the survey), one share vanishes "
+                        "after the survey of a read, clause C10_Available_after_vanish" if pid == "C10" else "", NONTRIVIAL[pid]))
     ctx.assumptions += [
         "TLC and the CommunityModules",
         "SHA-256d / RSA are modelled symbolically: a field is genuine for (version, share number) or it is not",
